@@ -468,6 +468,6 @@ func TestC10Restart(t *testing.T) {
 		if scripted {
 			cl = append(cl, "schedule_replanned_by_the_first_proposal")
 		}
-		st.Case(restarts > 0 && (d.passed > 0 || d.failedExec > 0), map[string]interface{}{"genesis": g, "history": d.log}, cl...)
+		st.Case(restarts > 0 && (d.passed > 0 || d.failedExec > 0), map[string]interface{}{"genesis": g, "history": d.log}, append(cl, d.txShapeClasses()...)...)
 	})
 }
